@@ -316,3 +316,22 @@ prop(
     essential=dict(quick=["two-or-more-processes", "mixed-deadline-kinds", "null-source-interleaved", "timeout-within-1ms-of-deadline", "poll-repeated-after-expiry", "deadline-came-first", "timeout-came-first", "event-came-first", "permuted-rerun", "wait-checked", "epoch-beyond-2^31-ms"]),
     assumptions=["all three streams are pipes; an idle stdin pipe is always writable, so IN interest makes a poll return at once", "deadline option values are positive ints (0 = none)"],
 )
+
+prop(
+    "C09",
+    title="Poll reports exactly the events that are true and nothing else",
+    level="exploration",
+    engine="vtime",
+    campaigns=[dict(bin="C09", random=dict(quick=5000, thorough=100000))],
+    level_text=("1-5 sources (NULL included) with every interest mask; each stream's state is constructed and acknowledged before the poll (not a pipe / open idle / data pending from 1 byte to a "
+                "full pipe / closed by the child / closed by the parent; stdin empty / full / reader gone / closed by the parent; child running / exited / reaped), so with timeout 0 nothing depends on "
+                "timing; some cases poll with a finite or infinite timeout and a scripted later event. Oracle: events subset of interests, NULL sources silent, return value = number of sources with events, "
+                "REPROC_EPIPE exactly when the parent-side pipe model has nothing pollable among the requested streams, completeness for settled true states, and a truthfulness probe per reported bit "
+                "(read / 1-byte write / wait(0)) that must complete without a blocking episode in the virtual-time scheduler."),
+    level_note="Readiness is the real kernel's poll(2); only settled states are demanded. Windows socket readiness is unreachable.",
+    technique="model-based property testing (rapidcheck tape) on the virtual-time engine; pipe-state model + truthfulness probes as oracle",
+    rule=("tape -> number of sources, per source NULL / interests (0-31) / state of stdout, stderr, stdin / child state / nonblocking / a later scripted event; poll timeout; optional second round after the probes. "
+          "Non-trivial: at least two sources, or a stream in a closed / not-a-pipe state, or a reaped child among the sources, or an empty pollable set. Distinct: hash of all of these."),
+    essential=dict(quick=["two-or-more-sources", "closed-or-not-a-pipe-stream", "reaped-child-among-sources", "empty-pollable-set", "waiting-poll", "probe-performed", "null-source"]),
+    assumptions=["a full stdin pipe is produced by writing exactly the 64 KiB capacity in page-sized writes", "processes have no deadline here (C08 covers deadline events)"],
+)
